@@ -153,7 +153,7 @@ type goalParts struct {
 }
 
 func (x *Exec) recordParts(t Term, kind string, a, b Term) Term {
-	if !t.IsC {
+	if !t.IsC && t.S != a.S && t.S != b.S {
 		x.parts[t.S] = goalParts{kind, a, b}
 	}
 	return t
